@@ -237,6 +237,24 @@ func (a *archetype) FreeTable(table *table) {
 	}
 }
 
+// removeFromTargetIndices removes a freed table from the lookup lists of its relation targets.
+//
+// Required when a table is freed while its targets stay alive.
+func (a *archetype) removeFromTargetIndices(table *table) {
+	for i := range table.columns {
+		column := &table.columns[i]
+		if !column.isRelation {
+			continue
+		}
+		if tables, ok := a.relationTables[i][column.target.id]; ok {
+			_ = tables.Remove(table.id)
+		}
+		if tables, ok := a.targetTables[column.target.id]; ok {
+			_ = tables.Remove(table.id)
+		}
+	}
+}
+
 // FreeAllTables frees all tables of the archetype.
 //
 // Does not clear the tables' contents.
